@@ -704,8 +704,7 @@ namespace avel {
         [[nodiscard]]
         AVEL_FINL explicit operator mask() const {
             #if defined(AVEL_AVX512VL) || defined(AVEL_AVX10_1)
-            auto t = _mm_castpd_si128(content);
-            return mask{_mm_test_epi64_mask(t, t)};
+            return mask{_mm_cmp_pd_mask(content, _mm_setzero_pd(), _CMP_NEQ_UQ)};
 
             #elif defined(AVEL_AVX)
             return mask{_mm_cmp_pd(content, _mm_setzero_pd(), _CMP_NEQ_UQ)};
